@@ -279,6 +279,10 @@ static void do_lag(vf_case *c) {
 	 * "degree n, n+1 coefficients" does not match the code) */
 	junk(C); VF_TRY(th, bn_evl(C, (const bn_t *)cs, A, M, (size_t)n + 1));
 	if (th) vf_fail(NULL, "bn_evl(n=%d) raised %d", n, th); else expect_bn("bn_evl", C, ze, NULL);
+	/* "c = a(x) mod q" for ANY integer coefficients: the same polynomial with coefficients shifted by multiples of q above the modulus / below zero */
+	for (int v = 0; v < 2; v++) { for (int i = 0; i <= n; i++) { mpz_mul_ui(zt, zm, (unsigned long)(i + 1 + v)); if (v) mpz_sub(zt, co[i], zt); else mpz_add(zt, co[i], zt); if (!vf_bn_set(cs[i], zt)) goto evl_done; }
+		junk(C); VF_TRY(th, bn_evl(C, (const bn_t *)cs, A, M, (size_t)n + 1)); if (th) vf_fail(NULL, "bn_evl(n=%d, %s coefficients) raised %d", n, v ? "negative" : "unreduced", th); else expect_bn(v ? "bn_evl[negative coefficients]" : "bn_evl[coefficients above the modulus]", C, ze, NULL); }
+evl_done:
 	for (int i = 0; i < 8; i++) mpz_clear(co[i]);
 }
 
